@@ -1,7 +1,8 @@
 """C18 — incremental analysis is transparent across edit histories.
 
 Obligations
-  theorems     Cppcheck.Cache.* in Props/C18.lean (for every hash / analysis / whole-program function)
+  theorems     Cppcheck.Cache.* in Props/C18.lean (for every hash / analysis / whole-program function); current_encoding_fixed,
+               current_lookup_exact, current_toolinfo_path_first tie the main theorem to the translated code
   T1           translator: CppCheck::calculateHash (toolinfo chain) and Preprocessor::calculateHash (per-token fields, header
                fields, start of hashData) -> Gen/HashInput.lean; closed grammar, fails closed; getAnalyzerInfoFileFromFilesTxt
                classified as one of the two modelled lookups
@@ -18,19 +19,21 @@ LEVEL = "proof"
 RULE = ("in-process cases = (settings, suppressions, source + headers) -> cache key; CLI cases = one run of an edit history "
         "(token edits, line/column shifts of 1/255/256/257/512, comment-only edits, inline suppressions, header edits, "
         "add/remove/rename/touch, -j1/-j2); non-trivial = the file has >= 3 code tokens resp. the run follows an edit and a file is reused or re-analysed")
-EXPLANATION = ("Lean: for every hash function, per-file analysis and whole-program analysis, a history over one build directory reports "
-               "what fresh runs report, given an injective hash, a key that determines the analysis input on the history, no macro-scoped "
-               "suppression deciding a replayed finding and a files.txt lookup that finds each file's own line; the three hypotheses are "
-               "each shown necessary by a proved counterexample that is replayed on the real binary (known findings); for the proposed "
-               "key composition / lookup the first and third hypothesis are theorems. Tie: key composition translated from the two "
-               "calculateHash functions + hashed in-process against the real functions; reuse decisions of CLI histories compared with the model. "
-               "The analysis itself (and that it is a function of the declared input) is a parameter, not verified.")
+EXPLANATION = ("Lean: for every hash function, per-file analysis, summaries and whole-program analysis, every run of every edit history over "
+               "one build directory reports what a run without build directory reports (history_transparent_partial), given an injective hash, "
+               "no path listed twice, and excluding two defects that remain in the code and are proved and replayed as counterexamples: macro-scoped "
+               "suppressions are not re-applied to replayed findings, function-return summaries (*.sN) are not part of the key. The hash data the code "
+               "composes (translated on every run from the two calculateHash functions) is proved uniquely decodable; the files.txt mapping is proved "
+               "injective; the pre-repair composition / lookup are kept as counterexample theorems (repaired by 72c97eb, 249f096). Tie: translation + "
+               "in-process hashing of the model's bytes against the real functions + reuse decisions of CLI histories. The analysis itself (that it "
+               "is a function of path, non-comment tokens, header names and options) is a parameter of the theorems, not verified; hash collisions "
+               "of std::hash are a hypothesis.")
 THEOREMS = ["Cppcheck.Cache." + t for t in (
-    "history_transparent_partial", "history_transparent_perFile_partial", "history_transparent_fixed",
+    "history_transparent_partial", "history_transparent_generic", "history_transparent_perFile_generic",
     "fixed_key_faithful", "render_pathPrefixed", "files_txt_mapping_injective", "files_txt_mapping_injective_partial",
     "encoding_not_injective", "linecol_mod_256_counterexample", "file_boundary_counterexample", "suffix_lookup_shares_cache_file",
     "suffix_lookup_counterexample", "removed_file_counterexample", "macro_suppression_counterexample", "summaries_counterexample",
-    "current_encoding_classified", "current_toolinfo_fields_known")]
+    "current_encoding_fixed", "current_lookup_exact", "current_toolinfo_path_first", "current_toolinfo_fields_known")]
 MODULES = ["Cppcheck.Props.C18"]
 
 
@@ -657,8 +660,8 @@ def sources(tree):
     return sorted(p for p in tree if p.endswith(".c"))
 
 
-def cppcheck(ctx, cwd, files, bd=None, jobs=1, extra=()):
-    cmd = [ctx.cppcheck, "-q", TEMPLATE, "--inline-suppr", "--error-exitcode=3", "-j%d" % jobs] + list(extra)
+def cppcheck(ctx, cwd, files, bd=None, jobs=1, extra=None):
+    cmd = [ctx.cppcheck, "-q", TEMPLATE, "--error-exitcode=3", "-j%d" % jobs] + (["--inline-suppr"] if extra is None else list(extra))
     if bd:
         cmd += ["--cppcheck-build-dir=" + bd, "--debug-analyzerinfo"]
     rc, out, err = core.sh(cmd + files, cwd=cwd, timeout=300)
